@@ -771,6 +771,8 @@ const STR_BODIES: &[&str] = &[
     // more bytes than characters, and statements longer than a table cell of the debugger
     "\u{e4}\u{f6}\u{fc}\u{e4}\u{f6}\u{fc}\u{e4}\u{f6}\u{fc}\u{e4}\u{f6}\u{fc}", "\u{65e5}\u{672c}\u{8a9e}\u{65e5}\u{672c}\u{8a9e}\u{65e5}\u{672c}",
     "a string literal that is longer than the cell", "sixteen chars ok",
+    // control characters written raw inside the quotes (not as escapes)
+    "a\tb", "\ttab first", "bell\u{7}!", "form\u{c}feed",
 ];
 
 #[derive(Clone, Debug)]
